@@ -38,6 +38,25 @@ CANARIES = [
     ("m-c16-mul-scalar", "C16", "utils/constraints.py", "                    term_right.factor, scale=term_left.scale * term_right.scale", "                    term_right.factor, scale=term_left.scale + term_right.scale"),
     ("m-c11-base-falsy", "C11", "transforms/contrasts.py", "    def _find_base_index(self, levels: Sequence[Hashable]) -> int:\n        if self.base is UNSET:\n            return 0", "    def _find_base_index(self, levels: Sequence[Hashable]) -> int:\n        if not self.base:\n            return 0"),
     ("m-c06-raise-inverted", "C06", "materializers/base.py", "                if null_indices:\n                    raise ValueError(f\"`{name}` contains null", "                if not null_indices:\n                    raise ValueError(f\"`{name}` contains null"),
+    # --- canaries for the contracts added on 2026-10-03 (tokens_to_ast, SimpleFormula, _evaluate_factor, materializer, C03 bookkeeping, stateful_eval, ...)
+    ("m-c14-ast-unguarded-peek", "C14", "parser/algos/tokens_to_ast.py",
+     "                while (\n                    operator_stack\n                    and operator_stack[-1].token.kind is not Token.Kind.CONTEXT\n                ):",
+     "                while (\n                    operator_stack[-1].token.kind is not Token.Kind.CONTEXT\n                ):"),
+    ("m-c14-ast-operate-marker", "C14", "parser/algos/tokens_to_ast.py",
+     "        if operator_stack[-1].token.kind is Token.Kind.CONTEXT:\n            raise exc_for_token(\n                operator_stack[-1].token, \"Could not find matching context marker.\"\n            )\n", ""),
+    ("m-c19-setitem-lazy-reorder", "C19", "formula.py", "        self.__terms[key] = value\n        self._reorder()", "        stale = self.__terms[key].degree != value.degree\n        self.__terms[key] = value\n        if stale:\n            self._reorder()"),
+    ("m-c20-differentiate-keeps-ordering", "C20", "formula.py", "            _ordering=OrderingMethod.NONE,\n        )", "            _ordering=self.ordering,\n        )"),
+    ("m-c09-kind-guard-inverted", "C09", "materializers/base.py", "                and value.__formulaic_metadata__.kind\n                is not spec.encoder_state[factor.expr][0]", "                and value.__formulaic_metadata__.kind\n                is spec.encoder_state[factor.expr][0]"),
+    ("m-c18-factor-kind-written", "C18", "materializers/base.py", "            if (\n                factor.kind is not Factor.Kind.UNKNOWN\n                and factor.kind is not value.__formulaic_metadata__.kind\n            ):",
+     "            if factor.kind is Factor.Kind.UNKNOWN:\n                factor.kind = value.__formulaic_metadata__.kind\n            elif factor.kind is not value.__formulaic_metadata__.kind:"),
+    ("m-c06-empty-caller-set", "C06", "materializers/base.py", "drop_rows: set[int] = drop_rows if drop_rows is not None else set()", "drop_rows: set[int] = drop_rows or set()"),
+    ("m-c03-merge-keeps-reduced", "C03", "materializers/base.py", "ScopedFactor(factor_new.factor, reduced=False)", "ScopedFactor(factor_new.factor, reduced=True)"),
+    ("m-c03-merge-keeps-existing", "C03", "materializers/base.py", "                        terms - (existing_term,)  # type: ignore", "                        terms  # type: ignore"),
+    ("m-c03-spanned-not-subtracted", "C03", "materializers/base.py", "                    self._get_scoped_terms_spanned_by_evaled_factors(evaled_factors)\n                    - spanned\n                )", "                    self._get_scoped_terms_spanned_by_evaled_factors(evaled_factors)\n                )"),
+    ("m-c03-spanned-records-merged", "C03", "materializers/base.py", "                spanned.update(term_span)", "                spanned.update(scoped_terms)"),
+    ("m-c18-env-not-wrapped", "C18", "utils/stateful_transforms.py", "    env = LayeredMapping(\n        env\n    )  # We sometimes mutate env", "    env = env if isinstance(env, LayeredMapping) else LayeredMapping(\n        env\n    )  # We sometimes mutate env"),
+    ("m-c15-context-off-by-one", "C15", "parser/types/token.py", "⧛{self.source[self.source_start:self.source_end+1]}⧚{self.source[self.source_end+1:]}\"", "⧛{self.source[self.source_start:self.source_end+2]}⧚{self.source[self.source_end+2:]}\""),
+    ("m-c07-joint-normalisation", "C07", "model_spec.py", "                spec.materializer_params or None,", "                spec.materializer_params,"),
     ("m-c06-drop-skipped", "C06", "materializers/base.py", "                drop_rows.update(null_indices)", "                drop_rows.update(i for i in null_indices if i % 7 != 6)"),
 ]
 
